@@ -48,9 +48,35 @@ func ruleR08e(c *Ctx, rule string) {
 					continue
 				}
 				for _, root := range roots(r.Results[0], nil) {
+					// a type kept in a cell (captured by a closure): the value stored there, compared through any load
+					var cmpVals []ssa.Value
+					if ld, isLoad := root.(*ssa.UnOp); isLoad && ld.Op == token.MUL {
+						if cell, isCell := ld.X.(*ssa.Alloc); isCell {
+							if sv := singleStore(cell); sv != nil {
+								root = sv
+								for _, cr := range *cell.Referrers() {
+									if l2, ok := cr.(*ssa.UnOp); ok && l2.Op == token.MUL {
+										cmpVals = append(cmpVals, l2)
+									}
+								}
+							}
+						}
+					}
 					ex, ok := root.(*ssa.Extract)
 					if !ok || ex.Index != 0 {
 						continue
+					}
+					cmpVals = append(cmpVals, ex)
+					for _, er := range *ex.Referrers() {
+						if st, ok := er.(*ssa.Store); ok && st.Val == ssa.Value(ex) {
+							if cell, ok := st.Addr.(*ssa.Alloc); ok {
+								for _, cr := range *cell.Referrers() {
+									if l2, ok := cr.(*ssa.UnOp); ok && l2.Op == token.MUL {
+										cmpVals = append(cmpVals, l2)
+									}
+								}
+							}
+						}
 					}
 					call, ok := ex.Tuple.(*ssa.Call)
 					if !ok {
@@ -61,18 +87,17 @@ func ruleR08e(c *Ctx, rule string) {
 					case g == nil:
 					case g == visitExpr || origin(g) == visitExpr:
 						// the type of a sub-expression handed on (`return lhsType, …`): the constants it was compared with
-						if fn == visitExpr {
-							continue
-						}
-						for _, rr := range *ex.Referrers() {
-							if bo, ok := rr.(*ssa.BinOp); ok && (bo.Op == token.EQL || bo.Op == token.NEQ) {
-								other := bo.X
-								if other == ssa.Value(ex) {
-									other = bo.Y
-								}
-								if k, ok := other.(*ssa.Const); ok {
-									if n, ok := constInt64Of(k); ok && n != 0 {
-										partial[n] = typeConstName(c, n)
+						for _, cv := range cmpVals {
+							for _, rr := range *cv.Referrers() {
+								if bo, ok := rr.(*ssa.BinOp); ok && (bo.Op == token.EQL || bo.Op == token.NEQ) {
+									other := bo.X
+									if other == cv {
+										other = bo.Y
+									}
+									if k, ok := other.(*ssa.Const); ok {
+										if n, ok := constInt64Of(k); ok && n != 0 {
+											partial[n] = typeConstName(c, n)
+										}
 									}
 								}
 							}
@@ -101,10 +126,32 @@ func ruleR08e(c *Ctx, rule string) {
 		idx := 0
 		allCalls(fn, func(ci ssa.CallInstruction) {
 			call, ok := ci.(*ssa.Call)
-			if !ok || !callsFn(call, visitExpr) || len(call.Call.Args) < 3 {
+			if !ok {
 				return
 			}
-			if push, isC := constBool(call.Call.Args[2]); !isC || push {
+			// a visit through a typed-visit helper (`visitExprOfType(node, false, T, …)`): the type is T, the address
+			// is the helper's address result
+			var tv *typedVisit
+			if g := staticCallee(call); g != nil {
+				if t := c.typedVisitHelpers()[g]; t != nil && t.ok && fn != g {
+					tv = t
+				}
+			}
+			pushIdx := 2
+			if tv != nil {
+				pushIdx = -1
+				for i, p := range tv.fn.Params {
+					if b, ok := p.Type().Underlying().(*types.Basic); ok && b.Kind() == types.Bool {
+						pushIdx = i
+					}
+				}
+			} else if !callsFn(call, visitExpr) || len(call.Call.Args) < 3 {
+				return
+			}
+			if pushIdx < 0 || pushIdx >= len(call.Call.Args) {
+				return
+			}
+			if push, isC := constBool(call.Call.Args[pushIdx]); !isC || push {
 				return
 			}
 			nSites++
@@ -114,7 +161,25 @@ func ruleR08e(c *Ctx, rule string) {
 			var cmp []int64
 			unknownType := true
 			var addrs []ssa.Value
+			if tv != nil {
+				if k, isC := call.Call.Args[tv.expected].(*ssa.Const); isC {
+					if n, ok := constInt64Of(k); ok {
+						cmp = append(cmp, n)
+						unknownType = false
+					}
+				}
+				for _, r := range *call.Referrers() {
+					if ex, ok := r.(*ssa.Extract); ok {
+						if pt, ok := ex.Type().(*types.Pointer); ok && isNamed(pt.Elem(), pkgMachine, "Address") {
+							addrs = append(addrs, ex)
+						}
+					}
+				}
+			}
 			for _, r := range *call.Referrers() {
+				if tv != nil {
+					break
+				}
 				ex, ok := r.(*ssa.Extract)
 				if !ok {
 					if _, isRet := r.(*ssa.Return); isRet {
